@@ -59,7 +59,24 @@ const (
 	sigLoopFullDiff   = "C13/link/full-sync/table-differs-from-snapshot"
 	sigQuiescent      = "C13/link/quiescent-divergence/changes-only-while-connected-or-away"
 	sigE2EDiverged    = "C13/e2e/quiescent-divergence/stable-phases"
+	// verdicts of waits that ended in a stable dead state (pollDead), + "/" + what the link went through last
+	// (initial | after-bounce | after-restart | after-halfopen | gated-episode):
+	sigNotRegistered = "C13/link/standby-connected-but-not-registered"    // standby on an open stream, the active has no stream client at all
+	sigStableDead    = "C13/e2e/quiescent-divergence/stable-dead-stream"   // connected, a client registered, nothing queued, and the pushed change never arrives
+	sigLinkStableDead = "C13/link/quiescent-divergence/stable-dead-stream" // the same on the gated link layer
+	sigMsgStableDead  = "C13/active/stream/change-pushed-while-connected-not-sent/stable-dead-stream"
 )
+
+// storeFP is a fingerprint of a session store's content (part of the state sampled by pollWatch).
+func storeFP(st ha.SessionStore) uint64 {
+	l := st.GetAllSessions()
+	sort.Slice(l, func(i, j int) bool { return l[i].SessionID < l[j].SessionID })
+	parts := make([]any, 0, len(l))
+	for _, s := range l {
+		parts = append(parts, canon(s))
+	}
+	return vstat.Hash(parts...)
+}
 
 func sigStream(kind ha.SyncMessageType) string {
 	return "C13/standby/stream/" + string(kind) + "-not-applied-in-push-order"
@@ -128,6 +145,102 @@ func pollUntil(cond func() bool) bool {
 			time.Sleep(time.Millisecond)
 		}
 	}
+}
+
+// ---- bounded waits that look at STATE, not at the clock -------------------------
+//
+// A wait for "the pushed change shows up on the standby / on the stream" can end in three ways:
+//
+//	pollOK       the condition held;
+//	pollExpired  the bound passed and the samples taken meanwhile do not single out a stable state:
+//	             INCONCLUSIVE, as for every expired wait (a slow machine is not a verdict);
+//	pollDead     EVERY sample of an unbroken run that covers at least deadWindow of real time AND at
+//	             least deadMinSamples samples (each separated from the next by a sleep, i.e. by a yield
+//	             to the Go scheduler) showed the same "dead" state: the caller-defined predicate held and
+//	             the caller-defined fingerprint of everything that could still move never changed.
+//
+// pollDead is not "it took too long".  The predicates used with it (see the call sites) describe states in
+// which nothing is queued anywhere, no request is in flight and no timer of the code under test is pending,
+// so that no amount of further waiting can deliver the change: the only thing between such a state and its
+// successor on a correct tree is a runnable goroutine (a stream handler returning, net/http ending the
+// response, the standby's reader seeing the end of the body).  A runnable goroutine of this very process is
+// not passed over by the Go scheduler for thousands of consecutive sleep/wake cycles of the polling
+// goroutine, however loaded the machine is (load slows all goroutines of the process together; it cannot
+// pick one out), which is why the run is measured in samples as well as in seconds.  Either measure alone
+// would do on an idle machine; requiring both makes the verdict independent of machine load in both
+// directions (few samples in 10 s on a starved machine: keep waiting; many samples in a short time: keep
+// waiting).  Any sample that breaks the predicate or changes the fingerprint starts the run afresh.
+const (
+	deadWindow     = 10 * time.Second
+	deadMinSamples = 2000
+	watchTimeout   = 3 * deadWindow // room for two noisy thirds and one clean window
+)
+
+type pollResult int
+
+const (
+	pollOK pollResult = iota
+	pollExpired
+	pollDead
+)
+
+type deadRun struct {
+	since time.Time
+	n     int
+	fp    string
+}
+
+// observe feeds one sample; true once the unbroken run is long enough by both measures.
+func (r *deadRun) observe(dead bool, fp string) bool {
+	if !dead {
+		r.n = 0
+		return false
+	}
+	now := time.Now()
+	if r.n == 0 || fp != r.fp {
+		r.since, r.n, r.fp = now, 0, fp
+	}
+	r.n++
+	return r.n >= deadMinSamples && now.Sub(r.since) >= deadWindow
+}
+
+// pollWatch polls cond (as pollUntil) and samples the state before every sleep.
+func pollWatch(cond func() bool, sample func() (dead bool, fp string)) pollResult {
+	deadline := time.Now().Add(watchTimeout)
+	var run deadRun
+	for i := 0; ; i++ {
+		if cond() {
+			return pollOK
+		}
+		if d, fp := sample(); run.observe(d, fp) {
+			// the condition is re-read after the sample: a change that landed between the two reads of
+			// this iteration must not be reported as absent
+			if cond() {
+				return pollOK
+			}
+			return pollDead
+		}
+		if time.Now().After(deadline) {
+			return pollExpired
+		}
+		if i < 50 {
+			time.Sleep(100 * time.Microsecond)
+		} else {
+			time.Sleep(time.Millisecond)
+		}
+	}
+}
+
+// bounded polls cond for at most d; for waits that only place a step (their expiry means nothing).
+func bounded(d time.Duration, cond func() bool) bool {
+	deadline := time.Now().Add(d)
+	for !cond() {
+		if time.Now().After(deadline) {
+			return false
+		}
+		time.Sleep(200 * time.Microsecond)
+	}
+	return true
 }
 
 // ---- loopback listeners ------------------------------------------------------
@@ -383,9 +496,17 @@ func withoutSentinels(in []ha.SessionState) []ha.SessionState {
 
 // dropCore is a zap core that counts the active's "Client channel full, dropping message"
 // warnings: the code under test announces each change it discards.
-type dropCore struct{ n *atomic.Int64 }
+type logCounts struct {
+	drops        atomic.Int64 // "Client channel full, dropping message"
+	connected    atomic.Int64 // "SSE client connected"  (a stream handler registered its client)
+	disconnected atomic.Int64 // "SSE client disconnected" (a stream handler deregistered and returns)
+}
 
-func (c dropCore) Enabled(l zapcore.Level) bool      { return l >= zapcore.WarnLevel }
+// The connected/disconnected counts are used only to PLACE harness steps (wait, briefly, until the active
+// has torn down a stream handler before going on); no verdict reads them.
+type dropCore struct{ c *logCounts }
+
+func (c dropCore) Enabled(l zapcore.Level) bool      { return l >= zapcore.InfoLevel }
 func (c dropCore) With([]zapcore.Field) zapcore.Core { return c }
 func (c dropCore) Sync() error                       { return nil }
 func (c dropCore) Check(e zapcore.Entry, ce *zapcore.CheckedEntry) *zapcore.CheckedEntry {
@@ -395,13 +516,23 @@ func (c dropCore) Check(e zapcore.Entry, ce *zapcore.CheckedEntry) *zapcore.Chec
 	return ce
 }
 func (c dropCore) Write(e zapcore.Entry, _ []zapcore.Field) error {
-	if e.Message == "Client channel full, dropping message" {
-		c.n.Add(1)
+	switch e.Message {
+	case "Client channel full, dropping message":
+		c.c.drops.Add(1)
+	case "SSE client connected":
+		c.c.connected.Add(1)
+	case "SSE client disconnected":
+		c.c.disconnected.Add(1)
 	}
 	return nil
 }
 
+func countingLogger() (*zap.Logger, *logCounts) {
+	c := new(logCounts)
+	return zap.New(dropCore{c}), c
+}
+
 func dropCountingLogger() (*zap.Logger, *atomic.Int64) {
-	n := new(atomic.Int64)
-	return zap.New(dropCore{n}), n
+	lg, c := countingLogger()
+	return lg, &c.drops
 }
